@@ -6,7 +6,7 @@ PassthroughFs / Vfs; this file encodes requests and decodes replies from the ker
 takes the raw getdents64 listing of the host directory as the oracle, runs resume histories,
 compares the replies with the Coq model (coq_check_cases) and evaluates the property
 predicate on what the implementation returned."""
-import os, sys, json, re, random, struct, subprocess, ctypes, shutil, stat, time
+import os, sys, json, re, random, struct, subprocess, ctypes, shutil, stat, time, atexit
 from vlib import *
 
 PROP = 'C16'
@@ -135,6 +135,24 @@ def raw_getdents(path, bufsize=32768):
         os.close(fd)
     return out
 
+def one_getdents(path, size, seek=None):
+    """one getdents64 call with a buffer of `size` bytes after an optional lseek -> list of names, or errno"""
+    fd = os.open(path, os.O_RDONLY | os.O_DIRECTORY)
+    try:
+        if seek is not None: os.lseek(fd, seek, os.SEEK_SET)
+        buf = ctypes.create_string_buffer(max(size, 1))
+        n = _libc.syscall(SYS_getdents64, fd, buf, size)
+        if n < 0: return ctypes.get_errno()
+        out = []; p = 0
+        while p < n:
+            ino, off, reclen, ty = struct.unpack_from('<QqHB', buf, p)
+            out.append(buf.raw[p + 19:p + reclen].split(b'\0', 1)[0]); p += reclen
+        return out
+    finally:
+        os.close(fd)
+
+I64_MAX = 2 ** 63 - 1
+
 def host_reclen(name): return round8(19 + len(name) + 1)
 def fuse_size(name, plus): return round8(24 + len(name)) + (128 if plus else 0)
 def is_dot(name): return name in (b'.', b'..')
@@ -202,13 +220,37 @@ def model_batch(oracle, k, size):
         tot += oracle[j][4]; b.append(j)
     return b
 
-def choose_size(rng, policy, oracle, k, plus):
+def fetch_mirror(oracle, cookie_idx, k, size, off):
+    """python mirror of the batch do_readdir fetches (only used to classify findings): list of indices or 'EINVAL'"""
+    def batch(pos):
+        if pos < len(oracle) and oracle[pos][4] > size: return 'EINVAL'
+        return model_batch(oracle, pos, size)
+    if off <= I64_MAX: return batch(k)
+    pos = 0; found = False
+    while True:
+        b = batch(pos)
+        if b == 'EINVAL' or not b: return b
+        pos += len(b)
+        if found: return b
+        ci = cookie_idx.get(off)
+        if ci in b:
+            rest = b[b.index(ci) + 1:]; found = True
+            if rest: return rest
+    return []
+
+def choose_size(rng, policy, oracle, k, plus, dc=None):
+    sz = choose_size0(rng, policy, oracle, k, plus)
+    if dc is not None and policy == 'fit_all': sz = max(sz, dc.max_reclen) + rng.choice([0, 8, 40, 100])
+    if dc is not None and dc.max_size: sz = min(sz, dc.max_size)
+    return sz
+
+def choose_size0(rng, policy, oracle, k, plus):
     j = next_visible(oracle, k)
     need = fuse_size(oracle[j][0], plus) if j is not None else fuse_size(b'x', plus)
     dots = sum(oracle[i][4] for i in range(k, j if j is not None else len(oracle)))
     safe = max(need, dots + (oracle[j][4] if j is not None else 0))     # what the code really needs
     if policy == 'min': return need
-    if policy == 'safe_min': return safe
+    if policy in ('safe_min', 'fit_all'): return safe
     if policy == 'small': return safe + rng.choice([0, 1, 7, 8, 9, 31, 40, 100, 200, 333])
     if policy == 'page': return max(4096, safe)
     if policy == 'big': return 65536
@@ -221,6 +263,9 @@ class DirCase:
         self.label, self.path, self.oracle = label, path, oracle
         self.cookie_idx = {e[2]: i for i, e in enumerate(oracle)}
         self.visible = [i for i, e in enumerate(oracle) if not is_dot(e[0])]
+        self.max_size = None                                   # largest buffer for which the host returns the maximal prefix
+        self.max_reclen = max([e[4] for e in oracle] or [24])
+        self.pols = None
 
 def check_oracle(dc, findings_or_broken):
     """the Section hypotheses of the theorems, checked on the real host listing"""
@@ -229,6 +274,17 @@ def check_oracle(dc, findings_or_broken):
     ok = len(set(offs)) == len(offs) and all(c != 0 for c in offs) and all(e[4] == host_reclen(e[0]) for e in o)
     again = raw_getdents(dc.path, 4096)
     ok = ok and [e[:4] for e in again] == [e[:4] for e in o]
+    # getdents64 returns the maximal prefix that fits (from the start and after an lseek to a cookie)
+    for size in [24, 48, 100, 333, 1000, 2000, 4096, 65536]:
+        for seek in [None] + [e[2] for e in o[:3] if e[2] <= I64_MAX]:
+            k = 0 if seek is None else dc.cookie_idx[seek] + 1
+            want = [o[i][0] for i in model_batch(o, k, size)]
+            if k < len(o) and o[k][4] > size: want = 22
+            got = one_getdents(dc.path, size, seek)
+            if got != want:
+                if isinstance(got, list) and isinstance(want, list) and got and want[:len(got)] == got and size >= 2000:
+                    dc.max_size = min(dc.max_size or size, size) // 2       # host caps what one call returns
+                else: ok = False
     if not ok:
         findings_or_broken.append({'kind': 'oracle-hypothesis', 'dir': dc.label,
                                    'what': 'host listing violates cookies distinct/non-zero, reclen formula or stable order'})
@@ -251,15 +307,15 @@ def run_history(cl, rng, dc, nodeid, fhs, streams, noise_rate, plus_refs, max_re
             r = rng.random()
             if r < 0.2 or not oracle: off = 0
             elif r < 0.9: off = rng.choice(oracle)[2]
-            else: off = rng.choice([2 ** 63, 2 ** 64 - 1, 2 ** 63 + 12345])
+            else: off = rng.choice([c for c in (2 ** 63, 2 ** 64 - 1, 2 ** 63 + 12345) if c not in dc.cookie_idx])
             k = 0 if off == 0 else (dc.cookie_idx[off] + 1 if off in dc.cookie_idx else None)
             plus = rng.random() < 0.3
-            size = choose_size(rng, rng.choice(['safe_min', 'small', 'page', 'mixed']), oracle, k if k is not None else 0, plus)
+            size = choose_size(rng, rng.choice(dc.pols or ['safe_min', 'small', 'page', 'mixed']), oracle, k if k is not None else 0, plus, dc)
             do_request(cl, dc, nodeid, fh, size, off, plus, hist, None, plus_refs)
             continue
         s = rng.choice(live)
         k = 0 if s.off == 0 else dc.cookie_idx[s.off] + 1
-        size = choose_size(rng, s.policy, oracle, k, s.plus)
+        size = choose_size(rng, s.policy, oracle, k, s.plus, dc)
         fh = fhs[rng.choice(s.handles) % len(fhs)]
         do_request(cl, dc, nodeid, fh, size, s.off, s.plus, hist, s, plus_refs)
         if s.done or s.steps > 3500: live.remove(s)
@@ -311,8 +367,10 @@ def judge_history(dc, hist, streams, cfgdesc):
             j = next_visible(o, k)
             need = fuse_size(o[j][0], rec['plus']) if j is not None else 1
             if rec['size'] >= need:
-                fnd('readdir with a size that admits the next entry fails with errno %d' % rec['errno'], rec,
-                    {'class': 'error-reply', 'errno': rec['errno']})
+                sig = {'class': 'error-reply', 'errno': rec['errno']}
+                if rec['off'] > I64_MAX and fetch_mirror(o, dc.cookie_idx, k, rec['size'], rec['off']) == 'EINVAL': sig['path'] = 'fallback-scan'
+                fnd('readdir with a size that admits the next entry fails with errno %d%s' % (rec['errno'],
+                    ' (linear-scan fallback: a record before the resume point does not fit the buffer)' if 'path' in sig else ''), rec, sig)
             continue
         if rec['len'] > rec['size']:
             fnd('reply of %d bytes exceeds the requested size %d' % (rec['len'], rec['size']), rec, {'class': 'size-exceeded'})
@@ -331,7 +389,8 @@ def judge_history(dc, hist, streams, cfgdesc):
                 fnd('reply is not the next entries of the directory after offset %d' % rec['off'], rec, {'class': 'not-next-entries'},
                     got=[e['name'].hex() for e in rec['ents'][:5]], want=[o[i][0].hex() for i in vis[:5]])
             elif vis and not rec['ents'] and rec['size'] >= fuse_size(o[vis[0]][0], rec['plus']):
-                b = model_batch(o, k, rec['size'])
+                b = fetch_mirror(o, dc.cookie_idx, k, rec['size'], rec['off'])
+                if b == 'EINVAL': b = []
                 cls = 'dots-only-batch' if b and all(is_dot(o[i][0]) for i in b) else 'other'
                 fnd('empty reply (end of directory) although %d entries remain and size %d admits the next one (%d bytes); host batch: %s'
                     % (len(vis), rec['size'], fuse_size(o[vis[0]][0], rec['plus']), [o[i][0].decode(errors='replace') for i in b][:4]),
@@ -417,11 +476,69 @@ def build_trees(rng, tier, findings, broken):
         trees[fsname] = (root, dcs)
     return trees
 
+_fuse_procs = []
+
+def fuse_umount(mnt):
+    try: _libc.umount2(mnt.encode(), 2)
+    except Exception: pass
+
+def build_fuse_tree(rng, bindir, broken):
+    """a FUSE mount served by the harness (`readdir serve`): directories with cookies above i64::MAX (no lseek
+    possible -> linear-scan fallback of do_readdir), "." / ".." records anywhere, long names early"""
+    mnt = os.path.join(SCRATCH, 'c16-fusemnt'); spec = os.path.join(SCRATCH, 'c16-cookiefs.spec')
+    fuse_umount(mnt); os.makedirs(mnt, exist_ok=True)
+    if not os.path.exists('/dev/fuse'): return None
+    used_c = {0, 2 ** 63, 2 ** 64 - 1, 2 ** 63 + 12345}
+    def cookie(big):
+        while True:
+            c = rng.randrange(2 ** 63 + 1, 2 ** 64 - 2) if big else rng.randrange(1, 2 ** 62)
+            if c not in used_c: used_c.add(c); return c
+    lines = []; ino = [100]
+    def add(d, name, big, ty=8):
+        ino[0] += 1; lines.append('%s %s %d %d %d' % (d, name.hex(), ino[0], cookie(big), ty))
+    used = set()
+    # n0: dots first, everything above i64::MAX
+    add('n0', b'.', True, 4); add('n0', b'..', True, 4)
+    for ln in [1, 2, 8, 9, 16, 40]: add('n0', name_of_len(rng, ln, used), True)
+    # n1: mixed cookies, dots in the middle, a 200-byte name early
+    seq = [3, 200, 1, None, 7, 8, 9, None, 24, 25, 31, 32, 33, 5]
+    dots = [b'.', b'..']
+    for i, ln in enumerate(seq):
+        if ln is None: add('n1', dots.pop(0), rng.random() < 0.5, 4)
+        else: add('n1', name_of_len(rng, ln, used), i % 3 != 0)
+    # n2: 60 entries above i64::MAX, dots last, a few long names
+    for i in range(60): add('n2', name_of_len(rng, 255 if i in (7, 41) else rng.randint(1, 60), used), True)
+    add('n2', b'.', True, 4); add('n2', b'..', True, 4)
+    lines.append('n3')                                        # empty directory without even dots
+    open(spec, 'w').write('\n'.join(lines) + '\n')
+    p = subprocess.Popen([os.path.join(bindir, 'readdir'), 'serve', mnt, spec], stdout=subprocess.PIPE, stderr=subprocess.DEVNULL, text=True)
+    _fuse_procs.append((p, mnt)); atexit.register(fuse_cleanup)
+    line = p.stdout.readline()
+    if line.strip() != 'mounted':
+        broken.append({'kind': 'harness', 'what': 'cookie fs could not be mounted (FUSE unavailable?)'}); return None
+    dcs = []
+    for name in ('n0', 'n1', 'n2', 'n3'):
+        path = os.path.join(mnt, name).encode()
+        dc = DirCase('fusefs/%s' % name, path, raw_getdents(path)); dc.name = name
+        if check_oracle(dc, broken):
+            if dc.max_size is None: dc.max_size = 3000
+            dc.max_size = min(dc.max_size, 3000); dc.pols = ['fit_all']
+            dcs.append(dc)
+    return mnt, dcs
+
+def fuse_cleanup():
+    for p, mnt in _fuse_procs:
+        fuse_umount(mnt)
+        try: p.kill(); p.wait(timeout=5)
+        except Exception: pass
+    del _fuse_procs[:]
+
 def stream_set(rng, dc, fhs, quick):
     """the resume patterns: sequential, go-back (start at the offset of some entry), interleaved handles, plain/plus"""
     S = []; sid = 0
     n = len(dc.oracle)
     pols = ['safe_min', 'small', 'page', 'big', 'mixed']
+    if dc.pols: pols = ['fit_all', 'fit_all', 'fit_all', 'safe_min']
     starts = [0]
     if n > 2: starts += [dc.oracle[rng.randrange(n)][2] for _ in range(2)] + [dc.oracle[-1][2], dc.oracle[max(0, n - 2)][2]]
     if quick and n > 1000: starts = starts[:3]
@@ -462,6 +579,9 @@ def run_check(tier, seed):
         broken.append({'kind': 'harness-build', 'log': out[-3000:]})
         return finish(ev, PROP, findings, broken)
     trees = build_trees(rng, tier, findings, broken)
+    ft = build_fuse_tree(rng, bindir, broken)
+    if ft is not None: trees['fusefs'] = ft
+    else: ev.assumptions.append('FUSE cookie file system not available in this run: linear-scan fallback exercised only with offsets no entry carries')
     evals = 0; nontriv = set(); samples = []; exprs = []; expr_meta = []
     headers = {}
     try:
@@ -469,6 +589,7 @@ def run_check(tier, seed):
             configs = [('passthrough', False), ('passthrough', True), ('vfs', False)]
             if not quick: configs.append(('vfs', True))
             if quick and fsname != 'ext4': configs = configs[:2]
+            if fsname == 'fusefs': configs = [('passthrough', False), ('passthrough', True)]
             for kind, noopendir in configs:
                 cfgdesc = {'fs': fsname, 'kind': kind, 'no_opendir': noopendir}
                 cl = FuseClient(os.path.join(bindir, 'readdir'))
@@ -557,7 +678,9 @@ def run_check(tier, seed):
                     broken.append({'kind': 'correspondence', 'name': 'Model/Readdir.v run vs Server+filesystem replies', 'case': expr_meta[i]})
         ev.cov['model_vs_impl_histories'] = len(exprs)
     log('C16: coq model comparison %.1fs' % (time.time() - t0))
-    for fsname, (root, dcs) in trees.items(): shutil.rmtree(root, ignore_errors=True)
+    fuse_cleanup()
+    for fsname, (root, dcs) in trees.items():
+        if fsname != 'fusefs': shutil.rmtree(root, ignore_errors=True)
     ev.cov['evaluations'] = evals
     ev.cov['distinct_nontrivial'] = len(nontriv)
     ev.cov['rule'] = ('evaluations = READDIR/READDIRPLUS requests sent through Server::handle_message (each judged by the property predicate and replayed in the Coq model) '
